@@ -153,6 +153,9 @@ func c06(r *eng.Run) {
 	}
 	res := runE1(r, sp, 0, K, 500000)
 	e1Evidence(r, 0, K, res)
+	runFamily(r, "string-shapes", sp.entry, stringShapeFamily(), checkStrings)
+	runPairSweep(r, sp.entry, pairCtxAll[:1], checkStrings)
+	runFamily(r, "long-runs", sp.entry, longRunFamily(r.Thorough()), checkStrings)
 	coverageReport(r, "appendRemainderOfString", "unescapeStringContent")
 	c06Sweeps(r)
 	r.Set("rule", e1Rule+" String explorations refine the reference state with the class of the partially read \\u escape and a pending-high-surrogate bit. E5 sweeps: all 65,536 \\uXXXX units (three hex-case spellings, alone / followed by x / truncated), all 1024x1024 high-low pairs and all other ordered surrogate pairs, each surrogate followed by a menu of malformed second escapes, destination (len, spare) x escape kinds at growth boundaries.")
